@@ -19,7 +19,7 @@ CHECKS['C02'] = dict(
     text=('All arrival orders (every permutation prefix, deduplicated) of five dependency graphs of up to 7 operations, plus every mixed history of a 22-letter '
           'alphabet up to the depth bound, run on the real rib.RIB in both forward-reference modes. Oracles in every state: an ack only when all references are installed in the fold; '
           'no installed entry dangles (while only Modify/full flush happened); no held operation is resolvable; the verdict of each operation (acked / held / FAILED) equals the '
-          'sequential specification; invalid references are FAILED, never held; nothing is answered twice.'),
+          'sequential specification; invalid references are FAILED, never held; nothing is answered twice; every referenced group / next-hop is protected by a positive deletion counter (a referenced but unprotected entry is one acknowledged DELETE away from a dangling one).'),
     note='Bounded depth/graph size; held-operation walk order is Go map order of the run (any order is legal for the oracle); 2 network instances.')
 CHECKS['C03'] = dict(
     category='model_checking', design_ref='DESIGN.md §3 C03',
@@ -33,7 +33,7 @@ CHECKS['C16'] = dict(
     technique='explicit-state BFS over operation histories on the real rib.RIB with the post-change hook folded into a mirror; resolved-entry hook: the same histories under the controlled runtime with every delivered snapshot compared with the model',
     text=('Every history of a 22-letter alphabet up to the depth bound, for hook registration before and after creation of the network instance: folding the notifications '
           '(ADD sets, DELETE removes, nil DELETE is a no-op) must reproduce RIBContents() in every network instance after every step, for Modify-style calls, held-operation resolution and Flush.'),
-    note='Resolved-entry hook tier: 16-letter alphabet from the empty RIB and two start states under the controlled runtime (the hook runs in its own goroutine) in two schedules - hook goroutine runs after every step / only after the whole history (lagging consumer); each ADD snapshot must contain and each DELETE snapshot lack the announced entry, announcements must match acknowledgements, and a delivered snapshot must not change afterwards. Post-change searches are repeated under descending map order. Bounded depth.')
+    note='Resolved-entry hook tier: 16-letter alphabet from the empty RIB and three start states (one asymmetric: the second network instance exists but is empty) under the controlled runtime (the hook runs in its own goroutine) in two schedules - hook goroutine runs after every step / only after the whole history (lagging consumer); each ADD snapshot must contain and each DELETE snapshot lack the announced entry, announcements must match acknowledgements, and a delivered snapshot must not change afterwards. Post-change searches are repeated under descending map order. Bounded depth.')
 ENGINES.append({'name': 'input-enumeration', 'path': 'harness/flushenum, harness/getenum, harness/malformed', 'serves_properties': ['C07', 'C08', 'C12'],
      'kind_free_text': 'bounded-exhaustive enumeration of structured inputs (catalogue x request x decision-table cell; builder-call subsets; mutation closure) executed on fresh real servers against a reference decision table / model'})
 ENGINES[0]['serves_properties'] += ['C04', 'C05', 'C06', 'C07']
@@ -85,11 +85,11 @@ CHECKS['C05']['text'] += (' Schedule tier: 2-3 threads announce colliding ids on
                           'each complete call/return history must be linearizable w.r.t. the sequential election model (porcupine) and the final state must be (maximum, an announcer of it).')
 CHECKS['C11'] = dict(
     category='model_checking', engine='schedule-dfs', design_ref='DESIGN.md §3 C11, §2.2',
-    technique='stateless schedule DFS with deviation bounding over 10 three/four-thread RPC scenarios on the -race build; HB-faithful shims make the Go race detector a per-schedule oracle',
-    text=('Ten scenarios of 3-4 threads with colliding keys (announce/announce/read; Modify chain vs Get vs Flush; negotiate/negotiate/disconnect; Flush(id) vs announce; primary vs non-primary on one key; '
+    technique='stateless schedule DFS with deviation bounding and happens-before state caching over 12 three/four-thread RPC scenarios on the -race build; HB-faithful shims make the Go race detector a per-schedule oracle',
+    text=('Twelve scenarios of 3-4 threads with colliding keys (a Get racing one writer that deletes a whole chain: the Get must return, per network instance, exactly one of the states the writer produced; a primary hand-over while the old primary\'s batch with forward references is being applied and the new primary programs forward references of its own: per-session acknowledgements = installed entries, final election state; announce/announce/read; Modify chain vs Get vs Flush; negotiate/negotiate/disconnect; Flush(id) vs announce; primary vs non-primary on one key; '
           'RIB add/delete with resolved-entry hook goroutine; AddNetworkInstance vs Get vs Flush; RIBContents vs cross-instance Flush vs AddNetworkInstance; deletes vs Flush vs Get; a Get over both populated instances abandoned by its client vs Modify vs Flush) run on the real server handlers under the controlled scheduler, '
           'every schedule within 2 (thorough 3) deviations from the default scheduler. Oracles per execution: Go race detector reports (hand-offs hidden with RaceDisable, program happens-before declared on tokens), exact deadlock '
-          '(no enabled thread), panic, every call returns, election linearizable, quiescent RIB = acknowledged operations.'),
+          '(no enabled thread), panic, every call returns, election linearizable, quiescent RIB = acknowledged operations, a concurrent Get is a snapshot of each instance. Executions that reach a state (hash of every thread\'s causal past, pending operation and the modelled synchronisation objects) already expanded with the same remaining budget are cut (self-tested against the search without the cache: VERIF_DIFF=1).'),
     note='Participants and bound are fixed (3-4 threads, <=3 deviations); sessions are driven at the handler API (the per-stream goroutine plumbing is C06/C10); weak-memory effects without a detectable race are out of scope. The race oracle is self-tested by cmd/rtlitmus.')
 ENGINES.append({'name': 'stream-history-bfs', 'path': 'harness/streams + wire/ + rt/', 'serves_properties': ['C09', 'C10'],
      'kind_free_text': 'explicit-state BFS over message / fault histories on REAL Modify and Get streams: the handler goroutines run as threads of the controlled runtime behind the in-memory transport, each step is run to quiescence under the default schedule, whole histories are re-executed on a fresh server'})
@@ -111,7 +111,7 @@ CHECKS['C13'] = dict(
     category='model_checking', engine='schedule-dfs', design_ref='DESIGN.md §3 C13',
     technique='stateless schedule DFS (deviation bound 1, thorough 2) of the real client (sender, receiver, waiter threads) x exhaustive enumeration of the scripted server\'s reply plans, ledger oracle',
     text=('The real client.Client runs under the controlled runtime against a scripted server behind the in-memory transport. For 1-2 (thorough 3) operations in RIB-ack and FIB-ack mode the server\'s reply plan ranges over every per-operation outcome '
-          '(programmed / FAILED / FIB_FAILED), every interleaving respecting RIB-before-FIB, every batching into responses, plus unknown-id, duplicate-terminal and withheld-terminal variants; operations are queued before or after StartSending; '
+          '(programmed / FAILED / FIB_FAILED), every interleaving respecting RIB-before-FIB, every batching into responses, plus unknown-id, duplicate-terminal and withheld-terminal variants; operations are queued before or after StartSending; the answer to the session parameters arrives at once or only after the first batch of results; a second application goroutine calls StopSending and Q while StartSending flushes queued requests (every request must reach the wire exactly once); '
           'every schedule within the deviation bound. Oracle: AwaitConverged succeeds only after the server sent a terminal result for every operation, with nothing pending, no recorded error, exactly one terminal result per operation carrying its type and key; '
           'protocol violations and withheld results never yield success; the waiter never livelocks against a well-behaved server.'),
     note='Virtual time (the 100 ms poll is a scheduling point); <= 3 operations; an unknown id carrying RIB_PROGRAMMED in FIB-ack mode is deliberately tolerated by the client (late RIB ack) and is not used as a violation.')
@@ -127,7 +127,7 @@ ENGINES[1]['path'] += ', harness/reconc, harness/chkenum, harness/fluentenum'
 CHECKS['C15'] = dict(
     category='model_checking', engine='input-enumeration', design_ref='DESIGN.md §3 C15',
     technique='exhaustive enumeration of ordered pairs of reference-closed RIBs (generated catalogue) x target-only instance variants through the real reconciler and real AddEntry/DeleteEntry',
-    text=('The catalogue is every reference-closed choice of one payload variant (or absence) per key of a universe over two network instances (quick 108 states, thorough larger universe). For every ordered pair (intended, target) '
+    text=('The catalogue is every reference-closed choice of one payload variant (or absence) per key of a universe over two network instances (payload variants differ by value AND by the set of leaves they carry, so that a replace has to remove leaves; quick 228 states over two universes, thorough larger). For every ordered pair (intended, target) '
           '(x three variants of a network instance only the target has) the real reconciler\'s operations are applied to the real target RIB in the documented order with reference checking on: each must succeed individually and at once, '
           'the target must end up equal to the intended RIB in every network instance, equal RIBs yield no operations, ids are distinct and count up from the base.'),
     note='Emission order inside a category follows map order: every pair is run under ascending and descending order of the instrumented maps (other permutations are not enumerated); local RIB targets only (the remote target is the same diff).')
@@ -136,13 +136,13 @@ CHECKS['C17'] = dict(
     technique='bounded-exhaustive enumeration of (result lists, wants, option subsets), Get responses x wants, client errors x wanted statuses x options on the real chk helpers with a fatal-capturing testing.TB, against a direct definition of "present"',
     text=('HasResult over all result lists of length <= 2 (thorough 3) of an alphabet of operation results (5 entry kinds x ids x statuses x types x keys, election and parameter results, nil) x every want x the 4 option subsets; '
           'HasResultsCache over want lists of length <= 2: never passes where HasResult fails, agrees when index keys are unique; GetResponseHasEntries over all 1024 subsets of 5 kinds x 2 instances x wants (present / other key / other instance); '
-          'HasNSendErrors / HasNRecvErrors / HasRecvClientErrorWithStatus over error shapes x counts x statuses x options. A helper must call Fatal iff the item is absent.'),
+          'HasNSendErrors / HasNRecvErrors / HasRecvClientErrorWithStatus over error shapes (codes x messages x three details variants) x counts x wanted statuses (with message, with details, with both) x options in both orders. A helper must call Fatal iff the item is absent.'),
     note='The reference is written from the helper documentation, not from its code. Pairs/triples of results are drawn from a reduced alphabet (stated in evidence).')
 CHECKS['C18'] = dict(
     category='model_checking', engine='input-enumeration', design_ref='DESIGN.md §3 C18',
     technique='bounded-exhaustive enumeration of fluent builder call sequences (length <= 4, thorough 5) and client call sequences (length <= 5, thorough 6) against a field-map model; queued messages compared byte-wise before/after later calls',
     text=('Every sequence of With*/Add* calls with 2-value argument domains per entry kind: OpProto()/EntryProto() must equal the independently rendered field map after every call and messages obtained earlier must not change. '
-          'Every sequence of AddEntry / ReplaceEntry / DeleteEntry (one or two entries, entry with its own election id) / UpdateElectionID on a real fluent client in elected-primary and all-primary mode, observed through the real client\'s pending queue: '
+          'Every sequence of AddEntry / ReplaceEntry / DeleteEntry (one or two entries, entry with its own election id) / UpdateElectionID on a real fluent client in elected-primary and all-primary mode - each program with a fresh Modify() wrapper per call, on ONE wrapper held for all calls, and chained on the returned wrappers - observed through the real client\'s pending queue: '
           'ids 1,2,3,..., requested operation type, stamp = id most recently set when queued unless the entry has its own, and no queued operation is altered by a later call.'),
     note='No transport involved (operations are observed in the client before sending).')
 ENGINES.append({'name': 'suite-history-search', 'path': 'harness/compl + wire/ + rt/', 'serves_properties': ['C19'],
